@@ -644,3 +644,162 @@ def m_broadcast_arrays(*arrs):
 @entry("jax.numpy.broadcast_to")
 def m_broadcast_to(a, shape):
     return a
+
+
+# =====================================================================================
+# pytrees (T3: jax.tree_util / equinox structural recursion).  Nodes: Obj (all instance fields are children), tuple, list,
+# dict; None is an empty node; everything else is a leaf.
+class Dummy:
+    """jnp.empty(shape, int): value irrelevant, only the shape is read"""
+
+    def __init__(self, shape):
+        self.shape = tuple(shape) if isinstance(shape, (tuple, list)) else (shape,)
+
+    is_int_array = True
+
+
+class Static:
+    """a leaf moved to the other side of eqx.partition (None placeholder in equinox)"""
+
+
+def is_array(x):
+    return isinstance(x, (SV, SumT, V.SArr, Dummy)) or getattr(x, "is_array", False) is True
+
+
+def is_inexact_array(x):
+    if isinstance(x, Dummy) or getattr(x, "is_int_array", False):
+        return False
+    if isinstance(x, SV):
+        return x.e.sort() == V.R
+    return is_array(x)
+
+
+def is_array_like(x):
+    return is_array(x) or (isinstance(x, (int, float, complex, bool)))
+
+
+def tree_map(f, tree, *rest, is_leaf=None):
+    if rest:
+        return _tree_map_n(f, (tree,) + rest, is_leaf)
+
+    def rec(x):
+        if is_leaf is not None and _truth(is_leaf(x)):
+            return f(x)
+        if x is None:
+            return None
+        if isinstance(x, Obj):
+            from .interp import obj_class, obj_fields
+
+            o = Obj(obj_class(x), **{k: rec(v) for k, v in obj_fields(x).items()})
+            object.__setattr__(o, "_frozen", True)
+            return o
+        if isinstance(x, tuple) and not hasattr(x, "_fields"):
+            return tuple(rec(v) for v in x)
+        if isinstance(x, list):
+            return [rec(v) for v in x]
+        if isinstance(x, dict):
+            return {k: rec(v) for k, v in x.items()}
+        return f(x)
+
+    return rec(tree)
+
+
+def _tree_map_n(f, trees, is_leaf):
+    def rec(xs):
+        x = xs[0]
+        if is_leaf is not None and _truth(is_leaf(x)):
+            return f(*xs)
+        if x is None:
+            return None
+        if isinstance(x, Obj):
+            from .interp import obj_class, obj_fields
+
+            return Obj(obj_class(x), **{k: rec([obj_fields(t)[k] if isinstance(t, Obj) else t for t in xs]) for k in obj_fields(x)})
+        if isinstance(x, (tuple, list)):
+            out = [rec([t[i] if isinstance(t, (tuple, list)) else t for t in xs]) for i in range(len(x))]
+            return tuple(out) if isinstance(x, tuple) else out
+        if isinstance(x, dict):
+            return {k: rec([t[k] if isinstance(t, dict) else t for t in xs]) for k in x}
+        return f(*xs)
+
+    return rec(list(trees))
+
+
+def _truth(v):
+    it = V.cur()
+    return it.truth(v) if it is not None else bool(v)
+
+
+def tree_leaves(tree, is_leaf=None):
+    out = []
+    tree_map(lambda x: out.append(x), tree, is_leaf=is_leaf)
+    return out
+
+
+def tree_flatten_one_level(node):
+    from .interp import obj_class, obj_fields
+
+    if isinstance(node, Obj):
+        f = obj_fields(node)
+        return list(f.values()), ("obj", obj_class(node), list(f.keys()))
+    if isinstance(node, (tuple, list)):
+        return list(node), (type(node).__name__, None, len(node))
+    raise Untranslatable("tree_flatten_one_level of a leaf")
+
+
+def tree_unflatten(treedef, leaves):
+    kind, cls, keys = treedef
+    leaves = list(leaves)
+    if kind == "obj":
+        o = Obj(cls, **dict(zip(keys, leaves)))
+        object.__setattr__(o, "_frozen", True)
+        return o
+    return tuple(leaves) if kind == "tuple" else leaves
+
+
+def partition(tree, filter_spec, is_leaf=None, **kw):
+    def pick(x, want):
+        keep = _truth(filter_spec(x)) if callable(filter_spec) else bool(filter_spec)
+        return x if keep == want else None
+
+    return tree_map(lambda x: pick(x, True), tree, is_leaf=is_leaf), tree_map(lambda x: pick(x, False), tree, is_leaf=is_leaf)
+
+
+def combine(*trees, is_leaf=None):
+    def first(*xs):
+        for x in xs:
+            if x is not None:
+                return x
+        return None
+
+    def rec(xs):
+        xs = [x for x in xs]
+        x = next((t for t in xs if t is not None), None)
+        if x is None:
+            return None
+        if isinstance(x, Obj):
+            from .interp import obj_class, obj_fields
+
+            o = Obj(obj_class(x), **{k: rec([obj_fields(t)[k] if isinstance(t, Obj) else None for t in xs]) for k in obj_fields(x)})
+            object.__setattr__(o, "_frozen", True)
+            return o
+        if isinstance(x, (tuple, list)):
+            out = [rec([t[i] if isinstance(t, (tuple, list)) else None for t in xs]) for i in range(len(x))]
+            return tuple(out) if isinstance(x, tuple) else out
+        if isinstance(x, dict):
+            return {k: rec([t[k] if isinstance(t, dict) else None for t in xs]) for k in x}
+        return first(*xs)
+
+    return rec(list(trees))
+
+
+for _n, _f in (("jax.tree_util.tree_map", tree_map), ("jax.tree_util.tree_leaves", tree_leaves), ("jax.tree_util.tree_unflatten", tree_unflatten),
+               ("equinox.tree_flatten_one_level", tree_flatten_one_level), ("equinox.partition", partition), ("equinox.combine", combine),
+               ("equinox.is_array", is_array), ("equinox.is_inexact_array", is_inexact_array), ("equinox.is_array_like", is_array_like)):
+    ENTRIES[_n] = (_f, "T3")
+ENTRIES["jax.numpy.empty"] = (lambda shape=(), dtype=None: Dummy(shape), "T1")
+
+
+@entry("equinox.filter_vmap", tier="T3")
+def m_filter_vmap(f=None, **kw):
+    raise Untranslatable("eqx.filter_vmap (needs a contract-level model)")
